@@ -7,6 +7,7 @@ package evalfilter
 import (
 	"encoding/binary"
 	"fmt"
+	"math"
 	"sort"
 
 	"github.com/skx/evalfilter/v2/ast"
@@ -946,7 +947,7 @@ func (e *Eval) emit(op code.Opcode, operands ...int) int {
 
 		// Make a buffer for the arg
 		b := make([]byte, 2)
-		binary.BigEndian.PutUint16(b, uint16(operands[0]))
+		binary.BigEndian.PutUint16(b, e.operand16(operands[0]))
 
 		// append
 		ins = append(ins, b...)
@@ -956,6 +957,20 @@ func (e *Eval) emit(op code.Opcode, operands ...int) int {
 	e.instructions = append(e.instructions, ins...)
 
 	return posNewInstruction
+}
+
+// operand16 converts the operand of an instruction to the 16 bits
+// which we have room for.
+//
+// If the value does not fit then we remember that, so that Prepare can
+// report the program as being too large instead of running something
+// which was silently truncated.
+func (e *Eval) operand16(operand int) uint16 {
+	if operand < 0 || operand > math.MaxUint16 {
+		e.tooLarge = true
+		return 0
+	}
+	return uint16(operand)
 }
 
 // changeOperand is designed to patch the operand of
@@ -992,7 +1007,7 @@ func (e *Eval) changeOperand(opPos int, operand int) {
 	// Make a buffer for the arg, which we can
 	// use to split it into two bytes.
 	b := make([]byte, 2)
-	binary.BigEndian.PutUint16(b, uint16(operand))
+	binary.BigEndian.PutUint16(b, e.operand16(operand))
 
 	// replace the argument in-place
 	e.instructions[opPos+1] = b[0]
